@@ -71,25 +71,7 @@ public:
 
     ~XalanArrayAllocator()
     {        
-        // begin() would allocate the head node of a list that
-        // was never used.
-        if (m_list.empty() == true)
-        {
-            return;
-        }
-
-        typename ListType::iterator iter = m_list.begin();
-
-        MemoryManager& theManager = m_list.getMemoryManager();
-
-        for( iter = m_list.begin(); iter != m_list.end(); ++iter)
-        {
-            if( (*iter).second != 0)
-            {
-                (*iter).second->VectorType::~VectorType();
-                theManager.deallocate((void*)(*iter).second);
-            }
-        }
+        destroyBlocks();
     }
 
     /**
@@ -98,6 +80,8 @@ public:
     void
     clear()
     {
+        destroyBlocks();
+
         m_list.clear();
 
         m_lastEntryFound = 0;
@@ -175,6 +159,30 @@ public:
 private:
 
     // Utility functions...
+    void
+    destroyBlocks()
+    {
+        // begin() would allocate the head node of a list that
+        // was never used.
+        if (m_list.empty() == true)
+        {
+            return;
+        }
+
+        typename ListType::iterator iter = m_list.begin();
+
+        MemoryManager& theManager = m_list.getMemoryManager();
+
+        for( iter = m_list.begin(); iter != m_list.end(); ++iter)
+        {
+            if( (*iter).second != 0)
+            {
+                (*iter).second->VectorType::~VectorType();
+                theManager.deallocate((void*)(*iter).second);
+            }
+        }
+    }
+
     Type*
     createEntry(
             size_type   theBlockSize,
